@@ -2,6 +2,7 @@ package main
 
 import (
 	"go/ast"
+	"go/constant"
 	"go/token"
 	"go/types"
 	"sort"
@@ -19,6 +20,40 @@ type Flow struct {
 	Body *ast.BlockStmt
 	Name string
 	corr map[string][]types.Object
+	sw   map[*ast.CaseClause]*ast.SwitchStmt
+}
+
+// switchOf: the expression switch a case clause belongs to (nil for type switches / select).
+func (f *Flow) switchOf(cc *ast.CaseClause) *ast.SwitchStmt {
+	if f.sw == nil {
+		f.sw = map[*ast.CaseClause]*ast.SwitchStmt{}
+		if f.Body != nil {
+			ast.Inspect(f.Body, func(n ast.Node) bool {
+				if s, ok := n.(*ast.SwitchStmt); ok {
+					for _, cl := range s.Body.List {
+						if c, ok := cl.(*ast.CaseClause); ok {
+							f.sw[c] = s
+						}
+					}
+				}
+				return true
+			})
+		}
+	}
+	return f.sw[cc]
+}
+
+// CaseTag: for the condition block of a `switch tag { case e: }` edge, the tag expression (nil otherwise).
+func (f *Flow) CaseTag(b *cfg.Block) ast.Expr {
+	if len(b.Succs) != 2 {
+		return nil
+	}
+	if cc, ok := b.Succs[0].Stmt.(*ast.CaseClause); ok {
+		if s := f.switchOf(cc); s != nil {
+			return s.Tag
+		}
+	}
+	return nil
 }
 
 type Pt struct {
@@ -161,7 +196,11 @@ func (f *Flow) Cond(b *cfg.Block) (cond ast.Expr, isCase bool) {
 		return nil, false
 	}
 	if b.Succs[0].Kind == cfg.KindSwitchCaseBody || b.Succs[1].Kind == cfg.KindSwitchNextCase {
-		if _, ok := b.Succs[0].Stmt.(*ast.CaseClause); ok {
+		if cc, ok := b.Succs[0].Stmt.(*ast.CaseClause); ok {
+			// the cases of a tagless switch are ordinary conditions evaluated in order
+			if s := f.switchOf(cc); s != nil && s.Tag == nil {
+				return f.normCond(e, 0), false
+			}
 			return e, true
 		}
 	}
@@ -1225,4 +1264,32 @@ func assignedBetween(info *types.Info, body ast.Node, obj types.Object, from, to
 		return true
 	})
 	return found
+}
+
+// ValueWorld: the branch edges that are impossible when the expressions recognised by lookup have the given
+// constant values. Conditions are evaluated in three-valued logic over their atoms (constant folding through
+// evalExpr); `switch tag { case e: }` edges compare the values of tag and e.
+func (f *Flow) ValueWorld(lookup func(ast.Expr) (constant.Value, bool)) func(b *cfgBlock, i int) bool {
+	w := f.World(func(atom ast.Expr) (bool, bool) {
+		if v, ok := evalExpr(f.Info, atom, lookup); ok && v.Kind() == constant.Bool {
+			return constant.BoolVal(v), true
+		}
+		return false, false
+	})
+	return func(b *cfgBlock, i int) bool {
+		if cond, isCase := f.Cond(b); cond != nil && isCase {
+			tag := f.CaseTag(b)
+			if tag == nil {
+				return false
+			}
+			tv, ok1 := evalExpr(f.Info, tag, lookup)
+			cv, ok2 := evalExpr(f.Info, cond, lookup)
+			if ok1 && ok2 && tv.Kind() == cv.Kind() {
+				eq := constant.Compare(tv, token.EQL, cv)
+				return eq != (i == 0)
+			}
+			return false
+		}
+		return w(b, i)
+	}
 }
